@@ -1,5 +1,9 @@
 def sig(fl):
     e = fl["event"]
+    if e.get("op") == "restart" and "podFirst" in e:   # reservation part
+        return "op=restart part=reservation podBeforeReservation=%s" % ("yes" if e["podFirst"] > 0 else "no")
+    if e.get("op") == "restart" and "order" in e:      # device part
+        return "op=restart part=device order=%s" % e.get("order")
     return "op=%s kind=%s" % (e.get("op"), e.get("kind"))
 
 
@@ -19,6 +23,9 @@ CONF = {
         # CPU / NUMA part: NumaCpu + Restart action; persistence through the real preBindObject, rebuild through podEventHandler
         {"pkg": "pkg/scheduler/plugins/nodenumaresource", "test": "TestVerifC19Numa", "family": "NumaCpu", "uses_script": False,
          "trace": {"module": "NumaCpuTrace", "cfg": "Trace.cfg"}},
+        # device part: Device + Restart action; persistence through the real pre-bind code, rebuild through the informer handlers
+        {"pkg": "pkg/scheduler/plugins/deviceshare", "test": "TestVerifC19Device", "family": "Device", "uses_script": False,
+         "trace": {"module": "DeviceTrace", "cfg": "Trace.cfg"}},
     ],
     "trace": {"module": "CodecTrace", "cfg": "Trace_Codec.cfg"},
     "signature": sig,
